@@ -10,6 +10,8 @@ Template directives (each on its own line, introduced by `//@@`):
   //@@ contract                                            (following lines: requires/ensures/decreases)
   //@@ loop <k>                                            (following lines: invariant/decreases for k-th loop)
   //@@ pre                                                 (following lines: statements put at body start)
+  //@@ post                                                (following lines: text put after the body, before `}`)
+  //@@ attrs                                               (following lines: attributes put before the signature)
   //@@ end
   //@@ check-struct file=<path> name=<T> fields="a: A, b: B" [drop="c, d"]
   //@@ check-enum   file=<path> name=<T> variants="A, B, C"
@@ -139,7 +141,7 @@ class Gen:
                 i += 1
             elif head in ("fn", "slice"):
                 kv = parse_kv(rest)
-                sec = {"rw": [], "contract": [], "loops": {}, "pre": [], "sig": [], "sigrw": []}
+                sec = {"rw": [], "contract": [], "loops": {}, "pre": [], "post": [], "attrs": [], "sig": [], "sigrw": []}
                 cur = None
                 i += 1
                 while True:
@@ -163,6 +165,10 @@ class Gen:
                             cur = sec["contract"]
                         elif h2 == "pre":
                             cur = sec["pre"]
+                        elif h2 == "post":
+                            cur = sec["post"]
+                        elif h2 == "attrs":
+                            cur = sec["attrs"]
                         elif h2 == "loop":
                             cur = sec["loops"].setdefault(int(r2), [])
                         else:
@@ -269,11 +275,13 @@ class Gen:
         self.items.append({"name": name, "kind": head, "file": kv["file"], "line": line,
                            "impl": kv.get("impl", ""), "src_name": kv["name"]})
         out = ["// ---- extracted %s from %s:%d (%s) ----" % (head, kv["file"], line, kv["name"])]
+        out.extend(sec["attrs"])
         out.extend(sig.split("\n"))
         out.extend(sec["contract"])
         out.append("{")
         out.extend(sec["pre"])
         out.extend(body.split("\n"))
+        out.extend(sec["post"])
         out.append("}")
         return out
 
